@@ -101,6 +101,12 @@ def run(ctx):
     # 2. replay: calculator.New end to end (iiss4.go) and the PRepInfo / Voter API (prep.go, voter.go)
     recs = ctx.go_replay("reward", "TestReplay", inp, shards=1 if ctx.replay else 4, timeout=ctx.pick(900, 3000))
     ctx.absorb(recs)
+    obs = [r for r in recs if r.get("status") == "skip" and str(r.get("what", "")).startswith("OBSERVATION")]
+    if obs:
+        ctx.cov["observations_calculation_failed_commission_rate_of_pruned_prep"] = len(obs)
+        ctx.notes.append("observation (not a C35 violation, see DESIGN.md 0.5b): in %d generated histories the real calculator "
+                         "FAILS the whole term (nothing credited), as the specification's transcription of the code predicts: %s"
+                         % (len(obs), obs[0]["what"][:600]))
     for cse in cases[:2] + cases[-1:]:
         ctx.sample([{k: s[k] for k in ("op", "v", "t", "p", "a", "s", "off", "term") if k in s}
                     for s in cse["steps"] if s["op"] != "calc"][:14])
